@@ -631,6 +631,63 @@ def s11(rep):
                           "constant and an assignment whose declared types differ syntactically are then accepted" % (msg, why))
 
 
+def s12(rep):
+    """A call is matched against a parameter list by tfSatAsMulti: a loop over the PARAMETERS finds for each one its argument
+    (by position or by `name == value` keyword) or its default.  Arguments that no parameter took -- too many positional ones, or
+    a keyword that names no parameter -- can only be noticed by counting what the loop consumed and comparing with the number of
+    arguments.  The arity verdict (TFS_DifferentArity) after the loop must therefore be conditional on a quantity the loop
+    updates; a test on the parameter and argument counts alone can never see a stray keyword once defaults are present
+    (`scale(5, faktor == 4)` is then accepted with the default silently used)."""
+    f = common.extract("tfsat.c", trees=["tfSatAsMulti"])
+    fn = f.func("tfSatAsMulti")
+    par = common.parents(fn["body"])
+    loops = [x for x in walk(fn["body"]) if x["k"] == "ForStmt" and any(y["k"] == "DeclRefExpr" and y["n"] == "parmc" for y in walk(x["c"][1]))]
+    if not loops:
+        raise AnalysisBroken("tfSatAsMulti: the loop over the parameters (i < parmc) was not found")
+    loop = loops[0]
+    inloop = set(y["id"] for y in walk(loop))
+    updated = set()
+    for x in walk(loop["c"][-1]):
+        t = None
+        if x["k"] in ("BinaryOperator", "CompoundAssignOperator") and x["op"].endswith("=") and x["op"] not in ("==", "!=", "<=", ">="):
+            t = strip(x["c"][0])
+        elif x["k"] == "UnaryOperator" and x["op"] in ("++", "post++"):
+            t = strip(x["c"][0])
+        if t is not None and t["k"] == "DeclRefExpr":
+            updated.add(t["n"])
+    for x in walk(loop["c"][0]) if loop["c"][0] is not None else []:
+        pass
+    verdicts = []
+    for c in walk(fn["body"]):
+        if c["k"] != "BinaryOperator" or c["op"] != "=" or c["id"] in inloop:
+            continue
+        if any("TFS_DifferentArity" in (y.get("mac"), y.get("imac")) for y in walk(c["c"][1])):
+            verdicts.append(c)
+    if not verdicts:
+        rep.violation("S12", "leftover-arguments-rejected", "tfsat.c:%d (tfSatAsMulti)" % fn["l"],
+                      "no arity verdict (TFS_DifferentArity) is raised after the loop over the parameters: extra arguments are ignored")
+        return
+    ok = False
+    cond_txt = ""
+    for c in verdicts:
+        cur = c
+        while cur["id"] in par:
+            p_ = par[cur["id"]]
+            if p_["k"] == "IfStmt" and any(y is cur for y in walk(p_["c"][1])):
+                names = set(y["n"] for y in walk(p_["c"][0]) if y["k"] == "DeclRefExpr")
+                cond_txt = common.render(p_["c"][0])[:70]
+                if names & (updated - {"i", "result"}) and "argc" in names:
+                    ok = True
+            cur = p_
+    if ok:
+        rep.ok("S12", "leftover-arguments-rejected", sample={"counted in the loop": sorted(updated - {"i", "result"})[:6]})
+    else:
+        rep.violation("S12", "leftover-arguments-rejected", "tfsat.c:%d (tfSatAsMulti)" % verdicts[0]["l"],
+                      "the arity verdict after the loop over the parameters is decided by `%s`, which compares argc with nothing the "
+                      "loop counts: an argument that no parameter consumed (a keyword naming no parameter of a callee that has "
+                      "defaults) is silently dropped and the ill-formed call is accepted" % cond_txt)
+
+
 def digest(f):
     return {"s1": s1_digest(f), "s45": s45_digest(f)}
 
@@ -646,6 +703,7 @@ def run(tier, only=None):
     s7(rep)
     s8(rep)
     s11(rep)
+    s12(rep)
     from . import variant_dispatch
     variant_dispatch.report_absyn(rep, "S10", ["ti_bup.c", "ti_tdn.c", "ti_sef.c", "scobind.c", "abcheck.c"], 180)
     from . import selfcompare
